@@ -23,6 +23,10 @@ size_t force2(E64 e, ::std::string& s, ::google::protobuf::io::CodedOutputStream
   ::babylon::SerializeTraits<uint64_t>::serialize(j, os); ::babylon::SerializeTraits<uint64_t>::deserialize(is, j);
   size_t more = ::babylon::SerializeTraits<int16_t>::calculate_serialized_size(f) + ::babylon::SerializeTraits<uint8_t>::calculate_serialized_size(g) + ::babylon::SerializeTraits<uint16_t>::calculate_serialized_size(h)
        + ::babylon::SerializeTraits<uint32_t>::calculate_serialized_size(i) + ::babylon::SerializeTraits<uint64_t>::calculate_serialized_size(j);
+  float k = 0; double l = 0;
+  ::babylon::SerializeTraits<float>::serialize(k, os); ::babylon::SerializeTraits<float>::deserialize(is, k);
+  ::babylon::SerializeTraits<double>::serialize(l, os); ::babylon::SerializeTraits<double>::deserialize(is, l);
+  more += ::babylon::SerializeTraits<float>::calculate_serialized_size(k) + ::babylon::SerializeTraits<double>::calculate_serialized_size(l);
   return more + ET::calculate_serialized_size(e) + ST::calculate_serialized_size(s) + ::babylon::SerializeTraits<int32_t>::calculate_serialized_size(a)
        + ::babylon::SerializeTraits<int8_t>::calculate_serialized_size(b) + ::babylon::SerializeTraits<bool>::calculate_serialized_size(c) + ::babylon::SerializeTraits<int64_t>::calculate_serialized_size(d);
 }
